@@ -2,6 +2,9 @@ SPECIFICATION ESpec
 CONSTANTS
   Plain = {p1, p2, p3}
   Limit = 2
+  Full = 4
+  Macro = FALSE
+  Witness = "none"
   MaxId = 7
   MaxJobs = 1
   MaxCrash = 0
